@@ -207,4 +207,44 @@ theorem hostsOfList_entriesSep (es : List (Bool × Str × List Str)) (acc : List
         cutAt_clean _ _ hnoeq, cutAt_append _ _ _ hcol, splitOn_joinWith _ _ hne hcomma, hostsAppend_absent _ _ _ hd0, hrest]
       simp
 
+/-! ### bracketed addresses of `extra_hosts` (round 7) -/
+
+/-- an address written in brackets: `[ip]` -/
+def bracketed (ip : Str) : Str := '[' :: (ip ++ [']'])
+
+/-- one address of an `extra_hosts` entry in one of its two spellings -/
+def addrSpelling (br : Bool) (ip : Str) : Str := if br then bracketed ip else ip
+
+theorem stripBrackets_bracketed (ip : Str) (hne : ip ≠ []) : stripBrackets (bracketed ip) = ip := by
+  cases ip with
+  | nil => exact absurd rfl hne
+  | cons c r =>
+    have hc := Char.utf8Size_pos c
+    have h1 : Char.utf8Size '[' = 1 := by decide
+    have h2 : Char.utf8Size ']' = 1 := by decide
+    have hlen : 2 < byteLen ('[' :: c :: (r ++ [']'])) := by
+      simp [byteLen, h1, h2]; omega
+    have hl : (c :: (r ++ [']'])).getLast? = some ']' := by
+      exact List.getLast?_concat (l := c :: r)
+    have hd : (c :: (r ++ [']'])).dropLast = c :: r := by
+      exact List.dropLast_concat (l₁ := c :: r)
+    simp [stripBrackets, bracketed, hlen, hl, hd]
+
+theorem stripBrackets_spelling (br : Bool) (ip : Str) (hne : ip ≠ []) (hbare : stripBrackets ip = ip) :
+    stripBrackets (addrSpelling br ip) = ip := by
+  cases br <;> simp [addrSpelling, hbare, stripBrackets_bracketed ip hne]
+
+/-- what the theorem asks of a written address: non-empty, not itself of the form `[…]`, comma-free -/
+def BareAddr (ip : Str) : Prop := ip ≠ [] ∧ stripBrackets ip = ip ∧ ∀ ch ∈ ip, ch ≠ ','
+
+theorem bracketed_comma_free (br : Bool) (ip : Str) (h : ∀ ch ∈ ip, ch ≠ ',') : ∀ ch ∈ addrSpelling br ip, ch ≠ ',' := by
+  cases br
+  · simpa [addrSpelling] using h
+  · intro ch hch
+    simp only [addrSpelling, bracketed, if_true, List.mem_cons, List.mem_append, List.not_mem_nil, or_false] at hch
+    rcases hch with rfl | hch | rfl
+    · decide
+    · exact h ch hch
+    · decide
+
 end CV.Short
